@@ -156,7 +156,12 @@ func (h Handler) ServeHTTP(w http.ResponseWriter, r *http.Request) (int, error) 
 			case "GET":
 				resp, err = fcgiBackend.Get(env, r.Body, contentLength)
 			case "OPTIONS":
-				resp, err = fcgiBackend.Options(env)
+				if r.ContentLength != 0 {
+					// an OPTIONS request may carry a body (RFC 7231, 4.3.7)
+					resp, err = fcgiBackend.Post(env, r.Method, r.Header.Get("Content-Type"), r.Body, contentLength)
+				} else {
+					resp, err = fcgiBackend.Options(env)
+				}
 			default:
 				resp, err = fcgiBackend.Post(env, r.Method, r.Header.Get("Content-Type"), r.Body, contentLength)
 			}
